@@ -2,19 +2,6 @@ import PasfmtModel.Proofs.Machine
 
 namespace Pasfmt
 
-/-- positions of the pass skipped by one primitive (ghost) -/
-def skippedBy (s : MState) : POp → List Nat
-  | .skip => [s.passIdx]
-  | _ => []
-
-/-- all positions skipped while running `ops` from `s` (ghost) -/
-def skippedRun (kinds : List RawKind) (pass : List Nat) (s : MState) : List POp → List Nat
-  | [] => []
-  | op :: ops =>
-    match s.step kinds pass op with
-    | none => []
-    | some s' => skippedBy s op ++ skippedRun kinds pass s' ops
-
 /-- line references held by the machine are valid -/
 structure RefsValid (s : MState) : Prop where
   cur : ∀ c ∈ s.cur, c < s.lines.length
